@@ -34,9 +34,10 @@ SWEEP_FLAGS = [(6, 6), (6, 1), (1, 6), (1, 1), (12, 12), (0, 15), (4, 4), (2, 8)
 
 
 def gen(rng, tier, idx):
-    if idx % 40 == 39:
+    every = 40 if tier == "quick" else 400
+    if idx % every == every - 1:
         rs = rng.derive("sweep")
-        fl = SWEEP_FLAGS[(idx // 40) % len(SWEEP_FLAGS)] if rs.chance(70) else (rs.below(16), rs.below(16))
+        fl = SWEEP_FLAGS[(idx // every) % len(SWEEP_FLAGS)] if rs.chance(70) else (rs.below(16), rs.below(16))
         return {"kind": "sweep", "flags": list(fl), "depth": 5 if tier == "quick" else 7}
     rk = rng.derive("knobs")
     models = rk.choice([["nosv"], ["nanos6"], ["nosv", "nanos6"], ["nosv"], ["nanos6"]])
